@@ -1,7 +1,7 @@
 (* Properties/C01.v -- C01: every stored snapshot is a valid texture, after any update history *)
 From Coq Require Import Reals ZArith List.
 From Coquelicot Require Import Hierarchy Derive.
-From PV Require Import Num NumR Model_core Model_minerals Proofs_core Proofs_minerals Proofs_flow.
+From PV Require Import Num NumR Model_core Model_minerals Proofs_core Proofs_minerals Proofs_rhs Proofs_flow Proofs_path Proofs_path2.
 From PV.gen Require Import Gen_core.
 Import ListNotations.
 Open Scope R_scope.
@@ -65,3 +65,68 @@ Example C01_nonvacuous :
   let y := [1;0;0; 0;1;0; 0;0;1;  1;0;0; 0;1;0; 0;0;1;  0;1;0; -1;0;0; 0;0;1;  0.25; 0.75] in
   length y = (9 + 10 * 2)%nat /\ 0 < rsum (clipped_fracs y 2).
 Proof. exact C01_nonvacuous_proof. Qed.
+
+(* ---- capstones for the texture ODE itself -------------------------------------------------------
+   y : nat -> R -> R is the state vector as a function of time; entry (i,j) of grain g's orientation
+   matrix A_g is y (9 + 9 g + (3 i + j)); f ... Lh sh t z i (Proofs_path.f) is component i of the modelled
+   eval_rhs at time t and state z (velocity-gradient history Lh, strain-rate scale sh; where eval_rhs
+   raises the modelled field is 0, so no "rhs Ok" hypothesis is needed below). *)
+
+(* the vector field itself: in the dislocation regimes, at EVERY state whose grain-g entries lie in [-1,1]
+   (extract_vars clips orientations to [-1,1] before the kernel sees them; on such a state the clip is the
+   identity), any velocity gradient L and scale s (s = 0 included), any (phase, fabric), any parameters:
+   (Ad.A^T + A.Ad^T)[r,r'] = 0 for the rate Ad the ODE assigns to grain g *)
+Theorem C01_field_conserves_orthonormality :
+  forall (regime ph fb : Z) (n : nat) (ass : list Z) (frs Sd : list R) (p nn lam M : R)
+         (L : list R) (s : R) (y : nat -> R) (g r r' : nat),
+  dislocation_regime regime -> (g < n)%nat -> (r < 3)%nat -> (r' < 3)%nat ->
+  (forall k, (k < 9)%nat -> -1 <= y (9 + 9 * g + k)%nat <= 1) ->
+  let A := fun i j : nat => y (9 + 9 * g + (3 * i + j))%nat in
+  let Ad := fun i j : nat => vf regime ph fb n ass frs Sd p nn lam M L s y (9 + 9 * g + (3 * i + j))%nat in
+  Ad r 0%nat * A r' 0%nat + Ad r 1%nat * A r' 1%nat + Ad r 2%nat * A r' 2%nat
+  + (A r 0%nat * Ad r' 0%nat + A r 1%nat * Ad r' 1%nat + A r 2%nat * Ad r' 2%nat) = 0.
+Proof. exact vf_gram_rate. Qed.
+
+(* along any exact solution, every Gram entry (A_g.A_g^T)[r,r'] = sum_q A_g[r,q] A_g[r',q] is the same at b
+   as at a, as long as grain g's entries stay in [-1,1] on [a,b].
+   PARTIAL: that last hypothesis is an assumption on the trajectory.  It is implied by orthonormality of
+   A_g(t) itself, but that the clip stays inactive for a solution starting orthonormal (invariance of the
+   region, a Gronwall argument needing a bound on the spin) is NOT proved. *)
+Theorem C01_solution_keeps_orthonormality_partial :
+  forall (regime ph fb : Z) (n : nat) (ass : list Z) (frs Sd : list R) (p nn lam M : R)
+         (Lh : R -> list R) (sh : R -> R) (y : nat -> R -> R) (a b : R) (g r r' : nat),
+  dislocation_regime regime -> a <= b -> (g < n)%nat -> (r < 3)%nat -> (r' < 3)%nat ->
+  (forall i t, a <= t <= b ->
+     is_derive (y i) t (f regime ph fb n ass frs Sd p nn lam M Lh sh t (fun j => y j t) i)) ->
+  (forall k t, (k < 9)%nat -> a <= t <= b -> -1 <= y (9 + 9 * g + k)%nat t <= 1) ->
+  let A := fun (i j : nat) (t : R) => y (9 + 9 * g + (3 * i + j))%nat t in
+  A r 0%nat b * A r' 0%nat b + A r 1%nat b * A r' 1%nat b + A r 2%nat b * A r' 2%nat b
+  = A r 0%nat a * A r' 0%nat a + A r 1%nat a * A r' 1%nat a + A r 2%nat a * A r' 2%nat a.
+Proof. exact solution_gram_constant. Qed.
+
+(* corollary: an orthonormal A_g(a) gives an orthonormal A_g(b) (gram (grainA y g) r r' t is the Gram entry
+   spelled out above) -- same partiality *)
+Theorem C01_solution_stays_orthonormal_partial :
+  forall (regime ph fb : Z) (n : nat) (ass : list Z) (frs Sd : list R) (p nn lam M : R)
+         (Lh : R -> list R) (sh : R -> R) (y : nat -> R -> R) (a b : R) (g : nat),
+  dislocation_regime regime -> a <= b -> (g < n)%nat ->
+  (forall i t, a <= t <= b ->
+     is_derive (y i) t (f regime ph fb n ass frs Sd p nn lam M Lh sh t (fun j => y j t) i)) ->
+  (forall k t, (k < 9)%nat -> a <= t <= b -> -1 <= y (9 + 9 * g + k)%nat t <= 1) ->
+  (forall r r', (r < 3)%nat -> (r' < 3)%nat -> gram (grainA y g) r r' a = if Nat.eqb r r' then 1 else 0) ->
+  (forall r r', (r < 3)%nat -> (r' < 3)%nat -> gram (grainA y g) r r' b = if Nat.eqb r r' then 1 else 0).
+Proof. exact solution_keeps_orthonormal. Qed.
+
+(* non-vacuity of the hypotheses (jointly): olivine A-type, 2 grains, regime 4, L = 0: the constant state
+   y0_example is an exact solution, entries in [-1,1], a grain of positive volume, rhs Ok, grain 1 orthonormal.
+   That the Ok path of eval_rhs is reached at every state of regimes 4 and 6: C03_solver_total / C06_rhs_ok_supported *)
+Example C01_solution_nonvacuous :
+  let y := fun (i : nat) (_ : R) => y0_example i in
+  dislocation_regime 4 /\
+  (forall i t, is_derive (y i) t
+     (f 4 0 0 2 [0%Z] [1] [] 1.5 3.5 30 125 (fun _ => repeat 0 9) (fun _ => 0) t (fun j => y j t) i)) /\
+  (forall g k t, (g < 2)%nat -> (k < 9)%nat -> -1 <= y (9 + 9 * g + k)%nat t <= 1) /\
+  (forall t, exists g, (g < 2)%nat /\ 0 < y (9 + 9 * 2 + g)%nat t) /\
+  (forall t, exists out, @rhs NumR 4 0 0 2 [0%Z] [1] (repeat 0 9) 0 [] 1.5 3.5 30 125 (ylist 2 (fun j => y j t)) = Ok out) /\
+  (forall r r', (r < 3)%nat -> (r' < 3)%nat -> gram (grainA y 1) r r' 0 = if Nat.eqb r r' then 1 else 0).
+Proof. exact solution_hyps_nonvacuous_proof. Qed.
